@@ -371,7 +371,7 @@ func runC12(c *ctx, r *Report) error {
 	if !c.quick {
 		nV = 6000
 	}
-	return visitTie(c, r, nV, func(cs Case) (string, string) {
+	return visitTie(c, r, nV, false, func(cs Case) (string, string) {
 		names := []string{"context-not-allowed", "special-func-not-allowed"}
 		if a, b := visitCodes(cs.Impl, names...), visitCodes(cs.Model, names...); a != b {
 			return "workflow-position-uses-wrong-table-row", "the 'not allowed here' reports at the probes (" + a + ") differ from those of the table row that belongs to each position (" + b + ")"
